@@ -404,6 +404,10 @@ class Translator:
         self.use_summaries = use_summaries
         self.vars = {}
         self.depth = 0
+        self.used_bignum = set()   # bignumber functions whose reference summary was applied
+        if not hasattr(P, "_translators"):
+            P._translators = []
+        P._translators.append(self)
 
     def var(self, name, integral=True):
         if integral:
@@ -651,6 +655,8 @@ class Translator:
             if rx.match(callee) or rx.match(g):
                 if probe:
                     return True
+                tgt_ = self.P.fn(callee) or self.P.fn(g)
+                self.used_bignum.add(tgt_.path if tgt_ is not None else g)
                 return fn_(self, [T(i) for i in range(len(a))], org)
         return None
 
